@@ -33,6 +33,8 @@ def main():
         shutil.rmtree(scratch, ignore_errors=True)
         os.makedirs(scratch)
         subprocess.run("git -C /repo archive HEAD | tar -x -C %s" % scratch, shell=True, check=True)
+        if os.path.exists("/repo/Cargo.lock") and not os.path.exists(os.path.join(scratch, "Cargo.lock")):
+            shutil.copy("/repo/Cargo.lock", os.path.join(scratch, "Cargo.lock"))     # untracked in /repo, needed offline
         subprocess.run(["git", "init", "-q"], cwd=scratch)
         r = subprocess.run(["git", "apply", os.path.join(d, "patch.diff")], cwd=scratch, stdout=subprocess.PIPE, stderr=subprocess.STDOUT, text=True)
         if r.returncode != 0:
